@@ -29,15 +29,18 @@ import (
 	"time"
 
 	v3clusterpb "github.com/envoyproxy/go-control-plane/envoy/config/cluster/v3"
+	v3corepb "github.com/envoyproxy/go-control-plane/envoy/config/core/v3"
 	v3endpointpb "github.com/envoyproxy/go-control-plane/envoy/config/endpoint/v3"
 	v3listenerpb "github.com/envoyproxy/go-control-plane/envoy/config/listener/v3"
 	v3routepb "github.com/envoyproxy/go-control-plane/envoy/config/route/v3"
+	"google.golang.org/grpc"
 	"google.golang.org/grpc/internal"
 	iresolver "google.golang.org/grpc/internal/resolver"
 	"google.golang.org/grpc/internal/testutils"
 	"google.golang.org/grpc/internal/testutils/xds/e2e"
 	"google.golang.org/grpc/internal/verifkit/vk"
 	"google.golang.org/grpc/internal/xds/balancer/clustermanager"
+	"google.golang.org/grpc/internal/xds/httpfilter"
 	rinternal "google.golang.org/grpc/internal/xds/resolver/internal"
 	"google.golang.org/grpc/internal/xds/xdsclient/xdsresource"
 	"google.golang.org/grpc/resolver"
@@ -55,7 +58,8 @@ const (
 
 var (
 	vfC51Clusters = []string{"A", "B", "C"}
-	vfC51Prefixes = []string{"/s0/", "/s1/"} // the catch-all route "" is always appended
+	vfC51Plugins  = []string{"cspP", "cspQ", "cspR"} // cluster specifier plugin names
+	vfC51Prefixes = []string{"/s0/", "/s1/"}         // the catch-all route "" is always appended
 )
 
 // ------------------------------------------------------------------ plan
@@ -63,6 +67,13 @@ var (
 type vfC51Route struct {
 	Clusters []int `json:"clusters"` // indices into the pool, distinct
 	Weights  []int `json:"weights"`
+	// Plugin > 0: the route action is cluster_specifier_plugin vfC51Plugins[Plugin-1]
+	// (Clusters/Weights are ignored); Cfg selects the plugin's configuration variant
+	// (the first route naming a plugin decides its configuration in that push).
+	Plugin int `json:"plugin,omitempty"`
+	Cfg    int `json:"cfg,omitempty"`
+	// Plain: a single cluster sent as RouteAction.cluster instead of weighted_clusters.
+	Plain bool `json:"plain,omitempty"`
 }
 
 type vfC51Op struct {
@@ -211,35 +222,73 @@ func vfC51Mgmt(t *testing.T) *e2e.ManagementServer {
 
 func vfC51RouteConfig(routes []vfC51Route, marker int) *v3routepb.RouteConfiguration {
 	var rs []*v3routepb.Route
+	var csps []*v3routepb.ClusterSpecifierPlugin
+	declared := map[string]bool{}
 	for i, r := range routes {
 		prefix := ""
 		if i < len(routes)-1 {
 			prefix = vfC51Prefixes[i%len(vfC51Prefixes)]
 		}
-		wc := &v3routepb.WeightedCluster{}
-		for j, c := range r.Clusters {
-			w := 1
-			if j < len(r.Weights) {
-				w = max(1, r.Weights[j])
+		action := &v3routepb.RouteAction{
+			// the marker identifies which route configuration a pushed state is based on
+			MaxStreamDuration: &v3routepb.RouteAction_MaxStreamDuration{MaxStreamDuration: durationpb.New(time.Duration(marker) * time.Millisecond)},
+		}
+		switch name := vfC51PluginName(r); {
+		case name != "":
+			// gRFC A28: the plugin is declared once per RouteConfiguration (name + typed
+			// config) and referenced by name from the route action.
+			if !declared[name] {
+				declared[name] = true
+				csps = append(csps, &v3routepb.ClusterSpecifierPlugin{Extension: &v3corepb.TypedExtensionConfig{
+					Name:        name,
+					TypedConfig: vfC51MarshalAny(&wrapperspb.BytesValue{Value: []byte(fmt.Sprintf("%s-cfg%d", name, r.Cfg))}),
+				}})
 			}
-			wc.Clusters = append(wc.Clusters, &v3routepb.WeightedCluster_ClusterWeight{Name: vfC51Clusters[((c%3)+3)%3], Weight: wrapperspb.UInt32(uint32(w))})
+			action.ClusterSpecifier = &v3routepb.RouteAction_ClusterSpecifierPlugin{ClusterSpecifierPlugin: name}
+		case r.Plain && len(r.Clusters) >= 1:
+			action.ClusterSpecifier = &v3routepb.RouteAction_Cluster{Cluster: vfC51Clusters[((r.Clusters[0]%3)+3)%3]}
+		default:
+			wc := &v3routepb.WeightedCluster{}
+			for j, c := range r.Clusters {
+				w := 1
+				if j < len(r.Weights) {
+					w = max(1, r.Weights[j])
+				}
+				wc.Clusters = append(wc.Clusters, &v3routepb.WeightedCluster_ClusterWeight{Name: vfC51Clusters[((c%3)+3)%3], Weight: wrapperspb.UInt32(uint32(w))})
+			}
+			action.ClusterSpecifier = &v3routepb.RouteAction_WeightedClusters{WeightedClusters: wc}
 		}
 		rs = append(rs, &v3routepb.Route{
-			Match: &v3routepb.RouteMatch{PathSpecifier: &v3routepb.RouteMatch_Prefix{Prefix: prefix}},
-			Action: &v3routepb.Route_Route{Route: &v3routepb.RouteAction{
-				ClusterSpecifier: &v3routepb.RouteAction_WeightedClusters{WeightedClusters: wc},
-				// the marker identifies which route configuration a pushed state is based on
-				MaxStreamDuration: &v3routepb.RouteAction_MaxStreamDuration{MaxStreamDuration: durationpb.New(time.Duration(marker) * time.Millisecond)},
-			}},
+			Match:  &v3routepb.RouteMatch{PathSpecifier: &v3routepb.RouteMatch_Prefix{Prefix: prefix}},
+			Action: &v3routepb.Route_Route{Route: action},
 		})
 	}
-	return &v3routepb.RouteConfiguration{Name: vfC51RouteName, VirtualHosts: []*v3routepb.VirtualHost{{Domains: []string{vfC51Service}, Routes: rs}}}
+	return &v3routepb.RouteConfiguration{Name: vfC51RouteName, ClusterSpecifierPlugins: csps,
+		VirtualHosts: []*v3routepb.VirtualHost{{Domains: []string{vfC51Service}, Routes: rs}}}
 }
 
+// vfC51PluginName returns the plugin a route refers to ("" for cluster routes).
+func vfC51PluginName(r vfC51Route) string {
+	if r.Plugin <= 0 {
+		return ""
+	}
+	return vfC51Plugins[(r.Plugin-1)%len(vfC51Plugins)]
+}
+
+// vfC51RouteClusters returns the cluster-manager children ("cluster:NAME" /
+// "cluster_specifier_plugin:NAME") a route configuration refers to.
 func vfC51RouteClusters(routes []vfC51Route) map[string]bool {
 	out := map[string]bool{}
 	for _, r := range routes {
-		for _, c := range r.Clusters {
+		if name := vfC51PluginName(r); name != "" {
+			out[clusterSpecifierPluginPrefix+name] = true
+			continue
+		}
+		cl := r.Clusters
+		if r.Plain && len(cl) > 1 {
+			cl = cl[:1]
+		}
+		for _, c := range cl {
 			out[clusterPrefix+vfC51Clusters[((c%3)+3)%3]] = true
 		}
 	}
@@ -249,13 +298,14 @@ func vfC51RouteClusters(routes []vfC51Route) map[string]bool {
 // ------------------------------------------------------------------ the recording channel
 
 type vfC51Event struct {
-	kind     string // state select commit
+	kind     string // state select commit iclose
 	children map[string]bool
 	xdsOK    map[string]bool // clusters with a usable entry in the XDSConfig attached to the state
 	marker   int
 	rpc      int
 	cluster  string
 	empty    bool // state without cluster-manager config (error path)
+	icpt     int  // select: id of the HTTP-filter interceptor the RPC is bound to (0 = none); iclose: the interceptor closed
 }
 
 type vfC51SC struct {
@@ -276,6 +326,7 @@ type vfC51CC struct {
 	// clusters referenced by the routes of the latest state's XDSConfig
 	routeClusters map[string]bool
 	errs          []error
+	icptSeq       int // interceptors built so far for this channel (ids 1, 2, ...)
 	holdNext      bool
 	blocked       chan struct{} // closed when an UpdateState call is parked
 	release       chan struct{}
@@ -344,6 +395,9 @@ func (c *vfC51CC) UpdateState(s resolver.State) error {
 			for _, wc := range rt.WeightedClusters {
 				rcl[clusterPrefix+wc.Name] = true
 			}
+			if rt.ClusterSpecifierPlugin != "" {
+				rcl[clusterSpecifierPluginPrefix+rt.ClusterSpecifierPlugin] = true
+			}
 		}
 	}
 
@@ -394,6 +448,9 @@ func vfC51SameSet(a, b map[string]bool) bool {
 func vfC51Keys(m map[string]bool) string {
 	var ks []string
 	for k := range m {
+		if strings.HasPrefix(k, clusterSpecifierPluginPrefix) {
+			k = "csp:" + strings.TrimPrefix(k, clusterSpecifierPluginPrefix)
+		}
 		ks = append(ks, strings.TrimPrefix(k, clusterPrefix))
 	}
 	sort.Strings(ks)
@@ -414,7 +471,11 @@ func vfC51Run(t *testing.T, p vfC51Plan) (res vk.Result) {
 	ctx, cancel := context.WithTimeout(context.Background(), 4*vfC51Wait)
 	defer cancel()
 
-	listeners := []*v3listenerpb.Listener{e2e.DefaultClientListener(vfC51Service, vfC51RouteName)}
+	// The listener carries the harness' tracking HTTP filter (verif_c51_csp_test.go) in
+	// front of the router filter: every route cluster of every config selector gets its
+	// own interceptor instance whose Close is logged, and an RPC learns the instance it
+	// is bound to by calling RPCConfig.Interceptor.NewStream like the channel does.
+	listeners := []*v3listenerpb.Listener{vfC51Listener(nodeID)}
 	var clusters []*v3clusterpb.Cluster
 	var endpoints []*v3endpointpb.ClusterLoadAssignment
 	for i, c := range vfC51Clusters {
@@ -429,11 +490,25 @@ func vfC51Run(t *testing.T, p vfC51Plan) (res vk.Result) {
 	if len(p.Init) == 0 {
 		return vk.Result{Discard: true}
 	}
+	for _, r := range p.Init {
+		if r.Plugin <= 0 && len(r.Clusters) == 0 {
+			return vk.Result{Discard: true}
+		}
+	}
+	for _, op := range p.Ops {
+		for _, r := range op.Routes {
+			if r.Plugin <= 0 && len(r.Clusters) == 0 {
+				return vk.Result{Discard: true}
+			}
+		}
+	}
 	if err := push(p.Init); err != nil {
 		return vk.Result{Discard: true, Classes: []string{"inconclusive:mgmt_update"}}
 	}
 
 	cc := &vfC51CC{notify: make(chan struct{}, 1), blocked: make(chan struct{}), release: make(chan struct{})}
+	vfC51Channels.Store(nodeID, cc)
+	defer vfC51Channels.Delete(nodeID)
 	builder, err := internal.NewXDSResolverWithConfigForTesting.(func([]byte) (resolver.Builder, error))(e2e.DefaultBootstrapContents(t, nodeID, mgmt.Address))
 	if err != nil {
 		return vk.Result{Discard: true, Classes: []string{"inconclusive:builder"}}
@@ -477,6 +552,10 @@ func vfC51Run(t *testing.T, p vfC51Plan) (res vk.Result) {
 			return false
 		}
 	}
+	// settle: the Update callback that pushed a state stops the old selector after
+	// UpdateState returned, and that may queue a prune push (plugin refcount -> 0).
+	// The first flush ends after that callback, the second after what it queued.
+	settle := func() bool { return flush() && flush() }
 	waitMarker := func() bool {
 		want := marker
 		return cc.waitFor(func(m int, _ map[string]bool) bool { return m == want })
@@ -499,6 +578,8 @@ func vfC51Run(t *testing.T, p vfC51Plan) (res vk.Result) {
 	cls := map[string]bool{}
 	nt := false
 	removedWith2 := map[string]bool{} // removed from the routes while >= 2 uncommitted RPCs reference it
+	// plugins that left the routes while >= 1 uncommitted RPC referenced them (and did not come back since)
+	pluginRemovedWithRPC := map[string]bool{}
 	applyPush := func(routes []vfC51Route) {
 		next := vfC51RouteClusters(routes)
 		for c := range cur {
@@ -514,6 +595,15 @@ func vfC51Run(t *testing.T, p vfC51Plan) (res vk.Result) {
 			if n >= 1 {
 				cls["removed_with_uncommitted_rpc"] = true
 			}
+			if strings.HasPrefix(c, clusterSpecifierPluginPrefix) {
+				cls["plugin_removed"] = true
+				if n >= 1 {
+					pluginRemovedWithRPC[c] = true
+					cls["plugin_removed_with_uncommitted_rpc"] = true
+				} else {
+					cls["plugin_removed_idle"] = true
+				}
+			}
 			if n >= 2 {
 				nt = true
 				removedWith2[c] = true
@@ -521,6 +611,12 @@ func vfC51Run(t *testing.T, p vfC51Plan) (res vk.Result) {
 			}
 		}
 		for c := range next {
+			if !cur[c] && strings.HasPrefix(c, clusterSpecifierPluginPrefix) {
+				if pluginRemovedWithRPC[c] {
+					cls["plugin_readded_before_prune_or_commit"] = true
+				}
+				delete(pluginRemovedWithRPC, c)
+			}
 			if !cur[c] && removedWith2[c] {
 				n := 0
 				for _, i := range uncommitted() {
@@ -612,6 +708,9 @@ func vfC51Run(t *testing.T, p vfC51Plan) (res vk.Result) {
 			if !waitMarker() {
 				return inconclusive("push_wait")
 			}
+			if !settle() {
+				return inconclusive("push_settle")
+			}
 		case "rpc":
 			method := []string{"/s0/m", "/s1/m", "/other/m"}[((op.Method%3)+3)%3]
 			cc.sel.RLock()
@@ -628,9 +727,30 @@ func vfC51Run(t *testing.T, p vfC51Plan) (res vk.Result) {
 				return vk.Bad("SelectConfig(%s) on the latest selector failed: %v", method, err)
 			}
 			cl := clustermanager.PickedCluster(rc.Context)
+			// which interceptor instance is the RPC bound to? ask it the way the channel
+			// uses it: NewStream (with a stream constructor that creates nothing)
+			probe := &vfC51Probe{}
+			if ic, ok := rc.Interceptor.(httpfilter.ClientInterceptor); ok {
+				ic.NewStream(context.WithValue(context.Background(), vfC51ProbeKey{}, probe), iresolver.RPCInfo{Method: method},
+					func(context.Context, ...grpc.CallOption) (grpc.ClientStream, error) { return nil, nil })
+			}
 			rpcs = append(rpcs, &vfC51RPC{cluster: cl, commit: rc.OnCommitted})
-			logEv(vfC51Event{kind: "select", rpc: len(rpcs) - 1, cluster: cl})
+			logEv(vfC51Event{kind: "select", rpc: len(rpcs) - 1, cluster: cl, icpt: probe.id})
+			cc.mu.Lock()
+			for pl := range pluginRemovedWithRPC {
+				// the channel already holds a config from which the removed plugin was pruned
+				if !cc.children[pl] {
+					cls["rpc_after_plugin_prune"] = true
+				}
+			}
+			cc.mu.Unlock()
 			cc.sel.RUnlock()
+			if probe.id == 0 {
+				return inconclusive("rpc_config_without_tracking_interceptor")
+			}
+			if strings.HasPrefix(cl, clusterSpecifierPluginPrefix) {
+				cls["rpc_on_plugin"] = true
+			}
 			if rc.OnCommitted == nil {
 				return vk.Bad("SelectConfig(%s) returned no OnCommitted hook", method)
 			}
@@ -656,6 +776,9 @@ func vfC51Run(t *testing.T, p vfC51Plan) (res vk.Result) {
 			if !waitMarker() {
 				return inconclusive("release_wait")
 			}
+			if !settle() {
+				return inconclusive("release_settle")
+			}
 		}
 	}
 	// wind down: release, let the last route configuration arrive, finish every RPC
@@ -664,6 +787,9 @@ func vfC51Run(t *testing.T, p vfC51Plan) (res vk.Result) {
 	}
 	if !waitMarker() {
 		return inconclusive("final_marker")
+	}
+	if !settle() {
+		return inconclusive("final_settle")
 	}
 	// first look at the log with the RPCs that are still open
 	verdict := func() *vk.Result {
@@ -717,6 +843,9 @@ func vfC51Run(t *testing.T, p vfC51Plan) (res vk.Result) {
 		for name, ci := range xr.activeClusters {
 			snaps = append(snaps, snap{name, ci.refCount.Load()})
 		}
+		for name, ci := range xr.activePlugins {
+			snaps = append(snaps, snap{name, ci.refCount.Load()})
+		}
 		close(done)
 	}, func() { snapFailed = true })
 	if snapFailed {
@@ -729,14 +858,14 @@ func vfC51Run(t *testing.T, p vfC51Plan) (res vk.Result) {
 	}
 	for _, s := range snaps {
 		if !want[s.name] {
-			return vk.Bad("after all RPCs were committed cluster %s is still active (refcount %d) although the routes only use %s", s.name, s.ref, vfC51Keys(want))
+			return vk.Bad("after all RPCs were committed child %s is still active (refcount %d) although the routes only use %s", s.name, s.ref, vfC51Keys(want))
 		}
 		if s.ref != 1 {
-			return vk.Bad("after all RPCs were committed cluster %s has refcount %d, want 1 (the config selector's reference): a commit hook ran more or less than once", s.name, s.ref)
+			return vk.Bad("after all RPCs were committed child %s has refcount %d, want 1 (the config selector's reference): a commit hook ran more or less than once", s.name, s.ref)
 		}
 	}
 	if len(snaps) != len(want) {
-		return vk.Bad("active clusters %v, routes use %s", snaps, vfC51Keys(want))
+		return vk.Bad("active clusters and plugins %v, routes use %s", snaps, vfC51Keys(want))
 	}
 	if len(rpcs) >= 2 {
 		cls["rpcs>=2"] = true
@@ -748,29 +877,64 @@ func vfC51Run(t *testing.T, p vfC51Plan) (res vk.Result) {
 	return res
 }
 
-// vfC51CheckLog replays the event log: every state handed to the channel must
-// keep (as a cluster-manager child, with usable cluster data) every cluster
-// picked by an RPC that was selected before and is not yet committed.
+// vfC51CheckLog replays the event log against what the channel really holds: the
+// latest (service config, config selector) PAIR delivered by one UpdateState.
+//   - An RPC is routed by the selector of the latest pair; the cluster-manager
+//     child it picks must be a child in the service config of that same pair.
+//   - Every later state must keep (as a cluster-manager child, for clusters also
+//     with usable cluster data) every child picked by an RPC that was selected
+//     before and is not yet committed.
+//   - The interceptor an RPC is bound to must be alive when the RPC is selected
+//     (a selector delivered to the channel must not be a stopped one) and must not
+//     be closed before the RPC is committed.
 func vfC51CheckLog(cc *vfC51CC) (msg string, watchDropped string) {
 	cc.mu.Lock()
 	log := append([]vfC51Event(nil), cc.log...)
 	cc.mu.Unlock()
 	open := map[int]string{}
+	openIcpt := map[int]int{}
+	closed := map[int]int{} // interceptor id -> event index of its Close
+	var held *vfC51Event    // the pair the channel holds
+	heldAt := -1
 	for i, ev := range log {
 		switch ev.kind {
 		case "select":
+			if held != nil && !held.empty && !held.children[ev.cluster] {
+				return fmt.Sprintf("event %d: RPC #%d was routed to %s by the config selector the channel holds, but the service config delivered together with that selector (event %d) has children %s: the RPC's cluster is not in the channel's configuration", i, ev.rpc, ev.cluster, heldAt, vfC51Keys(held.children)), ""
+			}
+			if at, ok := closed[ev.icpt]; ok && ev.icpt != 0 {
+				return fmt.Sprintf("event %d: RPC #%d routed to %s got interceptor #%d, which was closed at event %d: the config selector the channel holds (delivered at event %d) is a stopped one", i, ev.rpc, ev.cluster, ev.icpt, at, heldAt), ""
+			}
 			open[ev.rpc] = ev.cluster
+			openIcpt[ev.rpc] = ev.icpt
 		case "commit":
 			delete(open, ev.rpc)
+			delete(openIcpt, ev.rpc)
+		case "iclose":
+			if _, dup := closed[ev.icpt]; !dup {
+				closed[ev.icpt] = i
+			}
+			for rpc := 0; rpc < len(log); rpc++ {
+				if id, ok := openIcpt[rpc]; ok && id == ev.icpt {
+					return fmt.Sprintf("event %d: interceptor #%d was closed but RPC #%d routed to %s, which uses it, is not committed yet", i, ev.icpt, rpc, open[rpc]), ""
+				}
+			}
 		case "state":
+			held, heldAt = &log[i], i
 			if ev.empty {
 				continue // error path (resource removed / NACK): outside the generated domain
 			}
-			for rpc, cl := range open {
+			ids := make([]int, 0, len(open))
+			for rpc := range open {
+				ids = append(ids, rpc)
+			}
+			sort.Ints(ids)
+			for _, rpc := range ids {
+				cl := open[rpc]
 				if !ev.children[cl] {
 					return fmt.Sprintf("event %d: service config pushed to the channel has children %s but RPC #%d routed to %s is not committed yet", i, vfC51Keys(ev.children), rpc, cl), ""
 				}
-				if !ev.xdsOK[cl] {
+				if strings.HasPrefix(cl, clusterPrefix) && !ev.xdsOK[cl] {
 					return fmt.Sprintf("event %d: state pushed to the channel keeps child %s for uncommitted RPC #%d but its XDSConfig has no usable cluster entry for it (clusters with data: %s): the cluster's CDS/EDS watch was dropped", i, cl, rpc, vfC51Keys(ev.xdsOK)), cl
 				}
 			}
